@@ -9,6 +9,7 @@ import (
 	"strings"
 	"time"
 
+	"raven/internal/db"
 	"raven/internal/server/utils"
 	"raven/verifh/hx"
 	"raven/verifh/world"
@@ -148,6 +149,7 @@ func main() {
 	if o.Replay == "" {
 		timing(o, rep)
 		wire(o, rep, rng)
+		wireRoles(o, rep)
 	}
 	rep.Finish()
 }
@@ -327,4 +329,97 @@ func wire(o *hx.Opts, rep *hx.Report, rng *hx.Rng) {
 // listName extracts the mailbox name of `* LIST (attrs) "/" "name"`.
 func listName(l string) string {
 	return world.ListName(l)
+}
+
+// wireRoles: a user who holds role mailboxes sees them as Roles, Roles/<address>, Roles/<address>/<mailbox> next to personal
+// mailboxes whose names begin like "Roles": LIST returns exactly the names of LIST "" "*" that match reference+pattern, and the
+// role part of LSUB (role mailboxes are subscribed by assignment) is exactly the role names that match.
+func wireRoles(o *hx.Opts, rep *hx.Report) {
+	dir, cleanup := hx.WorkDir("c18r")
+	defer cleanup()
+	w, err := world.New(dir, "example.com")
+	if err != nil {
+		rep.Violate("broken-correspondence", "world", err.Error(), nil)
+		return
+	}
+	defer w.Close()
+	w.Login("rolly@example.com").Close()
+	shared := w.Mgr.GetSharedDB()
+	domID, _ := db.GetOrCreateDomain(shared, "example.com")
+	uid, _ := db.GetUserByEmail(shared, "rolly@example.com")
+	for _, addr := range []string{"sales@example.com", "r@example.com"} {
+		id, err := db.CreateRoleMailbox(shared, addr, domID, "")
+		if err != nil {
+			rep.Violate("broken-correspondence", "world", err.Error(), nil)
+			return
+		}
+		db.AssignUserToRoleMailbox(shared, uid, id, uid)
+	}
+	c := w.Login("rolly@example.com")
+	defer c.Close()
+	for _, n := range []string{"R", "Ro", "Reports", "Role", "Rolex/INBOX", "roles"} {
+		c.Cmd("CREATE " + n)
+	}
+	have := map[string]bool{}
+	for _, l := range c.Cmd(`LIST "" "*"`).Untagged {
+		have[listName(l)] = true
+	}
+	var all, roleNames []string
+	for n := range have {
+		all = append(all, n)
+		if strings.HasPrefix(n, "Roles") {
+			roleNames = append(roleNames, n)
+		}
+	}
+	sort.Strings(all)
+	sort.Strings(roleNames)
+	if len(roleNames) < 5 {
+		rep.Violate("impl-violation", "wire", fmt.Sprintf("LIST \"\" \"*\" of a user assigned to two role mailboxes shows only the role names %v", roleNames), []string{"roles LIST *"})
+		return
+	}
+	pats := []string{"*", "%", "R*", "Ro%", "Role%", "Role%/%", "Rol*/INBOX", "Roles", "Roles*", "Roles/%", "Roles/*", "%/%", "%/%/%", "*INBOX", "r*", "R%/%/I*", "Roles/%/Sent", "R%", "*@example.com", "%s/r@*"}
+	refs := []string{"", "Roles/", "Roles/sales@example.com/", "R", "Ro"}
+	var ops, impl []string
+	var roleOnly []bool
+	for _, r := range refs {
+		for _, p := range pats {
+			for _, verb := range []string{"LIST", "LSUB"} {
+				var got []string
+				for _, l := range c.Cmd(fmt.Sprintf("%s %q %q", verb, r, p)).Untagged {
+					if n := listName(l); verb == "LIST" || strings.HasPrefix(n, "Roles") {
+						got = append(got, n)
+					}
+				}
+				sort.Strings(got)
+				names := all
+				if verb == "LSUB" {
+					names = roleNames
+				}
+				ops = append(ops, "filter "+hx.H(r)+" "+hx.H(p)+" "+hx.HList(names))
+				impl = append(impl, "set:"+strings.Join(got, ","))
+				roleOnly = append(roleOnly, verb == "LSUB")
+				rep.Case("roles "+verb+" "+r+" "+p, true)
+				rep.Hit("wire-roles-" + verb)
+			}
+		}
+	}
+	model, err := hx.RunModel(o.Driver, ops)
+	if err != nil {
+		rep.Violate("broken-correspondence", "driver", err.Error(), nil)
+		return
+	}
+	for i := range model {
+		var names []string
+		if model[i] != "." {
+			for _, h := range strings.Fields(model[i]) {
+				// the filter lists INBOX whenever the pattern matches it (finding C11-F3); the role part is compared
+				if n := hx.UnH(h); !roleOnly[i] || strings.HasPrefix(n, "Roles") {
+					names = append(names, n)
+				}
+			}
+		}
+		sort.Strings(names)
+		model[i] = "set:" + strings.Join(names, ",")
+	}
+	rep.DiffOracle("LIST/LSUB of a role holder over the wire vs Model/ListMatch.filter", "Props.C18.filter_exact", ops, impl, model)
 }
